@@ -1,6 +1,7 @@
 package props
 
 import (
+	"bytes"
 	"fmt"
 	"reflect"
 	"testing"
@@ -243,6 +244,68 @@ func TestC03(t *testing.T) {
 			r.NonTrivial(av.Hash("emptymapref/" + cse.what))
 		}
 		r.Label("references-to-a-map-without-entries")
+	}
+	// ---------------- byte arrays in the two-octet length form [x34-x37] b0 (what Java writes for 16..1023 octets):
+	// every length 0..1023 at top level, as a list element, as a map value, as the []byte field of an object and
+	// as the final chunk behind an 'A' chunk (§5 #41)
+	if shard == 0 {
+		tm, _ := hessian.ExtractTypeNameMap(&zoo.BinCarrier{})
+		for l := 0; l <= 1023; l++ {
+			data := make([]byte, l)
+			for i := range data {
+				data[i] = byte(i*7 + l)
+			}
+			form := append([]byte{byte(0x34 + l>>8), byte(l)}, data...)
+			cases := []struct {
+				what string
+				b    []byte
+				pick func(interface{}) interface{}
+				want []byte
+			}{
+				{"top level", form, func(v interface{}) interface{} { return v }, data},
+				{"list element", append(append([]byte{0x57, 0x91}, form...), 'Z'), func(v interface{}) interface{} {
+					if l, ok := v.([]interface{}); ok && len(l) == 2 {
+						return l[1]
+					}
+					return v
+				}, data},
+				{"map value", append(append([]byte{'H', 0x01, 'k'}, form...), 'Z'), func(v interface{}) interface{} {
+					if m, ok := v.(map[interface{}]interface{}); ok && len(m) == 1 {
+						return m["k"]
+					}
+					return v
+				}, data},
+				{"[]byte field of an object", append([]byte("C\x0aBinCarrier\x91\x01b\x60"), form...), func(v interface{}) interface{} {
+					if p, ok := v.(*zoo.BinCarrier); ok && p != nil {
+						return p.B
+					}
+					return v
+				}, data},
+				{"final chunk behind an 'A' chunk", append([]byte{'A', 0, 2, 0xaa, 0xbb}, form...), func(v interface{}) interface{} { return v }, append([]byte{0xaa, 0xbb}, data...)},
+			}
+			for _, cse := range cases {
+				if _, _, derr := refcodec.Decode(cse.b); derr != nil {
+					harnessBug(t, "C03", "two-octet binary form, length %d, %s: not well-formed: %v", l, cse.what, derr)
+				}
+				var out interface{}
+				var err error
+				pv, st := guard(func() { out, err = hessian.ToObject(cse.b, tm) })
+				if pv == nil && err == nil {
+					got, ok := cse.pick(out).([]byte)
+					if !ok && len(cse.want) == 0 && cse.pick(out) == nil {
+						ok = true // nil and empty are identified
+					}
+					if ok && bytes.Equal(got, cse.want) {
+						r.Eval()
+						continue
+					}
+					err = fmt.Errorf("decoded to %T of %d octets", cse.pick(out), len(got))
+				}
+				directFail(t, "C03", map[string]interface{}{"bytes": hexClip(cse.b, 200), "what": cse.what, "length": l}, "C03 byte array of %d octets in the form [x34-x37] b0, %s (%s): %v %v [%s]", l, cse.what, hexClip(cse.b, 24), err, pv, st)
+			}
+			r.NonTrivial(av.Hash(fmt.Sprintf("bin-two-octet/%d", l)))
+		}
+		r.Label("binary-two-octet-length-form")
 	}
 	// ---------------- random values x random choices
 	cfg := zoo.DefaultCfg()
